@@ -735,6 +735,15 @@ def mk_scenario(name, family, layout, shapes, bulks=None, cancel=None,
             'max_completes': max_completes}
 
 
+def mass_scenario(n):
+    tasks = [sw.make_task('t%d' % i, ranks=1, cores_per_rank=1)
+             for i in range(n)]
+    return {'name': 'mass/L1x%d/%dxc1' % (n, n), 'family': 'mass',
+            'layout': dict(nodes=1, cores=n, gpus=0), 'layout_name': 'mass',
+            'bulks': [tasks], 'cancel': None, 'envs': None, 'scattered': True,
+            'oracle': 'base', 'max_completes': None, 'mass': True}
+
+
 def bulkings(n):
     '''all ways to cut a sequence of n tasks into consecutive bulks'''
     out = list()
@@ -823,6 +832,9 @@ def scenarios(ctx_pid, quick):
     add('app', 'L2x4g2b', [('g1', {'slots': s_blk})])
     add('app', 'L3x2g1a', [('c1', {'slots': s_agt})])
 
+    # many tasks ending together (release bookkeeping across bulk limits) --------------
+    out.append(mass_scenario(700))
+
     # priorities ---------------------------------------------------------------------
     for combo in (['c2', 'c1', 'p1c2'], ['c2', 'p1c2', 'c1'],
                   ['c2', 'c2p0', 'p1c2'], ['c2', 'p1', 'c2p0'],
@@ -858,7 +870,7 @@ FAMILIES = {
     'C02': ('core', 'gpu', 'frac', 'lfsmem', 'rpn', 'tags', 'blocked',
             'cont', 'invalid'),
     'C03': ('core', 'gpu', 'frac', 'lfsmem', 'app', 'cancel', 'cont',
-            'blocked'),
+            'blocked', 'mass'),
     'C04': ('core', 'gpu', 'prio', 'invalid', 'env', 'cancel', 'rpn', 'frac',
             'lfsmem', 'blocked'),
     'C08': ('cancel',),
